@@ -36,18 +36,30 @@ pub struct ModCase {
 fn mod_case() -> BoxedStrategy<ModCase> {
     (modulus_value(2, 61), any::<[u8; 8]>(), any::<[u64; 8]>(),
      proptest::collection::vec((any::<u8>(), any::<u64>(), any::<u8>(), any::<u64>()), 0..40), limbs_var(1, 8))
-        .prop_map(|(q, sel, r, vecs, words)| {
-            let e = match sel[6] % 8 { 0 => 0, 1 => 1, 2 => 2, 3 => q - 1, 4 => q, 5 => u64::MAX, _ => r[6] >> (r[7] % 64) };
-            // dot product operands: below q (the way the library uses it) or arbitrary, truncated so that the sum fits 128 bits
-            let mut v1 = vec![]; let mut v2 = vec![]; let mut acc: u128 = 0;
-            let below = sel[7] % 4 != 0;
-            for (s1, r1, s2, r2) in vecs {
-                let (p, w) = if below { (operand_below(s1, r1, q), operand_below(s2, r2, q)) } else { (operand_any(s1, r1, q), operand_any(s2, r2, q)) };
-                match acc.checked_add(p as u128 * w as u128) { Some(n) => { acc = n; v1.push(p); v2.push(w); } None => break }
-            }
-            ModCase { q, a: operand_below(sel[0], r[0], q), b: operand_below(sel[1], r[1], q), c: operand_below(sel[2], r[2], q),
-                x: operand_any(sel[3], r[3], q), y: operand_any(sel[4], r[4], q), z: operand_any(sel[5], r[5], q), e, v1, v2, words }
-        }).boxed()
+        .prop_map(|(q, sel, r, vecs, words)| mod_from_raw(q, sel, r, vecs, words)).boxed()
+}
+fn mod_from_raw(q: u64, sel: [u8; 8], r: [u64; 8], vecs: Vec<(u8, u64, u8, u64)>, words: Vec<u64>) -> ModCase {
+    let e = match sel[6] % 8 { 0 => 0, 1 => 1, 2 => 2, 3 => q - 1, 4 => q, 5 => u64::MAX, _ => r[6] >> (r[7] % 64) };
+    // dot product operands: below q (the way the library uses it) or arbitrary, truncated so that the sum fits 128 bits
+    let mut v1 = vec![]; let mut v2 = vec![]; let mut acc: u128 = 0;
+    let below = sel[7] % 4 != 0;
+    for (s1, r1, s2, r2) in vecs {
+        let (p, w) = if below { (operand_below(s1, r1, q), operand_below(s2, r2, q)) } else { (operand_any(s1, r1, q), operand_any(s2, r2, q)) };
+        match acc.checked_add(p as u128 * w as u128) { Some(n) => { acc = n; v1.push(p); v2.push(w); } None => break }
+    }
+    ModCase { q, a: operand_below(sel[0], r[0], q), b: operand_below(sel[1], r[1], q), c: operand_below(sel[2], r[2], q),
+        x: operand_any(sel[3], r[3], q), y: operand_any(sel[4], r[4], q), z: operand_any(sel[5], r[5], q), e, v1, v2, words }
+}
+/// fuzz decoder (engine E3): the same primitive choices drawn from fuzzer bytes, mapped by `mod_from_raw`
+fn mod_decode(src: &mut crate::fuzz::Src) -> Option<ModCase> {
+    let q = modulus_decode(src, 2, 61);
+    let mut sel = [0u8; 8]; for x in sel.iter_mut() { *x = src.u8(); }
+    let mut r = [0u64; 8]; for x in r.iter_mut() { *x = src.u64(); }
+    let nv = src.below(40) as usize;
+    let vecs = (0..nv).map(|_| (src.u8(), src.u64(), src.u8(), src.u64())).collect();
+    let len = src.incl(1, 8) as usize;
+    let words = limbs_decode(src, len);
+    Some(mod_from_raw(q, sel, r, vecs, words))
 }
 
 fn limbs_var(lo: usize, hi: usize) -> BoxedStrategy<Vec<u64>> { (lo..=hi).prop_flat_map(limbs).boxed() }
@@ -242,6 +254,13 @@ fn uint_case() -> BoxedStrategy<UintCase> {
         let len = a.len();
         UintCase { op, a, b, m, w, shift: pick_idx(sh, 64 * len), rlen, carry }
     }).boxed()
+}
+/// fuzz decoder (engine E3) for `uint_case`
+fn uint_decode(src: &mut crate::fuzz::Src) -> Option<UintCase> {
+    let op = UOPS[src.below(UOPS.len() as u64) as usize]; let len = src.incl(1, 8) as usize;
+    let (a, b, m) = (limbs_decode(src, len), limbs_decode(src, len), limbs_decode(src, len));
+    let w = limb_decode(src); let sh = src.u16(); let rlen = src.incl(1, 10) as usize; let carry = src.below(2) as u8;
+    Some(UintCase { op, a, b, m, w, shift: pick_idx(sh, 64 * len), rlen, carry })
 }
 
 fn bu(v: &[u64]) -> BigU { BigU::from_limbs(v) }
@@ -546,9 +565,11 @@ pub fn def() -> PropertyDef {
             "domains re-derived from doc comments and callers: operands of add/sub/negate/decrement below q, increment operand <= 2q-2, div2 for odd q, precomputed-operand multiplication with y < q and any 64-bit x, dot products whose exact sum fits 128 bits, multi-word binary helpers on equal-length buffers, gcd/xgcd operands below 2^62, naf for |v| <= 2^20",
         ],
         subs: vec![
-            Sub::prop("modular_primitives", 200_000, 5_000_000, 0.2, |_| mod_case(), mod_oracle),
+            Sub::prop("modular_primitives", 200_000, 5_000_000, 0.2, |_| mod_case(), mod_oracle).fuzzable(mod_decode, mod_oracle),
             Sub::enumerate("small_moduli_exhaustive", |_| (2u64..128).map(|q| SmallQ { q }).collect(), small_oracle),
-            Sub::prop("multiword_helpers", 600_000, 20_000_000, 0.2, |_| uint_case(), uint_oracle),
+            Sub::prop("multiword_helpers", 600_000, 20_000_000, 0.2, |_| uint_case(), uint_oracle).fuzzable(uint_decode, uint_oracle),
+            Sub::corpus("fuzz_corpus_arith", "c08_arith", mod_decode, mod_oracle),
+            Sub::corpus("fuzz_corpus_multiword", "c08_multiword", uint_decode, uint_oracle),
         ],
     }
 }
